@@ -146,6 +146,11 @@ def check_string(s, names, mode, win, out, stream, converse=False):
                     out.violation(dict(case, problem='escape(bytes) differs from escape(str)', bytes_pattern=bpat.decode('latin-1')),
                                   size=len(s) * 10 + len(names), bucket=('bytes-escape', mode, win))
                     return
+                im_ = (F.is_magic if mode == 'fn' else G.is_magic)
+                if im_(pat, flags=fl) != im_(bpat, flags=fl):
+                    out.violation(dict(case, problem='is_magic() of the escaped text differs between str and bytes', is_magic_str=im_(pat, flags=fl),
+                                       is_magic_bytes=im_(bpat, flags=fl)), size=len(s) * 10 + len(names), bucket=('is-magic-escaped', mode, win))
+                    return
                 if not (F.compile if mode == 'fn' else G.compile)(bpat, flags=fl).match(bs):
                     out.violation(dict(case, problem='as bytes: does not match itself'), size=len(s) * 10 + len(names), bucket=('self-bytes', mode, win))
                     return
